@@ -2,6 +2,7 @@ import AutoVerif.Drv.Round
 import AutoVerif.Spec.C01
 import AutoVerif.Spec.C05
 import AutoVerif.Spec.C09
+import AutoVerif.Spec.C04
 open Lean AutoVerif.Codec
 namespace AutoVerif.C09
 open AutoVerif.Outcome AutoVerif.Round
@@ -21,7 +22,9 @@ def decodeTrace (j : Json) : R Trace := do
   let queries ← listF (fun q => do
       pure ({ round := ← natF q "round", node := ← natF q "node", report := ← natF q "report", isAccept := ← boolF q "isAccept",
               accept := ← boolF q "accept", transmit := ← boolF q "transmit", pre := ← boolF q "pre" } : Query)) j "queries"
-  pure { n := ← natF j "n", f := ← natF j "f", honest := ← natList (fieldD j "honest" .null),
+  let events ← listOf (fun e => do
+      pure ({ round := ← natF e "round", node := ← natF e "node", wid := ← strF e "wid", checkBlock := ← natF e "cb" } : EvSeen)) (fieldD j "events" .null)
+  pure { events := events, n := ← natF j "n", f := ← natF j "f", honest := ← natList (fieldD j "honest" .null),
          correct := ← natList (fieldD j "correct" .null), pipeline := pipeline, rounds := rounds, reports := reports, queries := queries }
 
 def handleRound (input impl : Json) : R Reply := do
@@ -35,11 +38,17 @@ def handleRound (input impl : Json) : R Reply := do
     let agree := decide (got = want)
     let s1 := C01.spec rd.ctx limits os got.agreed
     let s5 := C05.spec rd.ctx limits rd.prev os got.agreed got.surfaced
+    -- reports of the network runs: batch size 3, default gas limit and overhead (config of harness/net_test.go)
+    let ncfg := C04.ensureDefaults 3 0 0
+    let hasReports := (fieldD impl "hasReports" (.bool false)) == .bool true
+    let reps ← listOf (listOf checkResult) (fieldD impl "reports" .null)
+    let s4 := !hasReports || C04.spec ncfg got.agreed reps
     pure { agree := agree, specModel := C01.spec rd.ctx limits os want.agreed && C05.spec rd.ctx limits rd.prev os want.agreed want.surfaced,
-           specImpl := s1 && s5,
+           specImpl := s1 && s5 && s4,
            diff := if agree then "" else s!"model: {showOutcome want} impl: {showOutcome got}",
-           fail := if !s1 then C01.explain rd.ctx limits os got.agreed else if !s5 then C05.explain rd.ctx limits rd.prev os got.agreed got.surfaced else "",
-           nontrivial := !got.agreed.isEmpty || !got.surfaced.flatten.isEmpty, tags := "net-round" :: roundTags rd want }
+           fail := if !s1 then C01.explain rd.ctx limits os got.agreed else if !s5 then C05.explain rd.ctx limits rd.prev os got.agreed got.surfaced
+                   else if !s4 then "reports: " ++ C04.explain ncfg got.agreed reps else "",
+           nontrivial := !got.agreed.isEmpty || !got.surfaced.flatten.isEmpty, tags := "net-round" :: (roundTags rd want ++ (if got.agreed.any (fun r => decide (r.gas > 5000000)) then ["over-limit-upkeep-agreed"] else [])) }
 
 def handle (input impl : Json) : R Reply := do
   let kind ← strF input "kind"
